@@ -368,7 +368,7 @@ Section RelM.
       | assumption
       | apply psat_liftR; solve [auto with sat | apply sat_position | apply sat_peek_error | apply sat_peek
                                  | apply sat_parse_token | apply sat_end_seq | apply sat_parse_byte_list | apply sat_expect_end
-                                 | apply sat_bind; [apply sat_eat|intros ?; apply sat_peek_or_null] ]
+                                 | apply sat_bind; [apply sat_eat|intros ?; apply sat_peek] ]
       | apply psat_bind; [|intros ?]
       | match goal with
         | |- psat (match ?x with _ => _ end) => destruct x
